@@ -252,6 +252,20 @@ func oneLine(s string) string {
 	return s
 }
 
+// Noise returns n fixed pseudo-random (incompressible) bytes; the engine
+// produces the same concrete sequence without executing a harness loop.
+func Noise(n int) []byte {
+	p := make([]byte, n)
+	x := uint32(2463534242)
+	for i := range p {
+		x ^= x << 13
+		x ^= x >> 17
+		x ^= x << 5
+		p[i] = byte(x >> 11)
+	}
+	return p
+}
+
 // Deflate compresses data: real zlib natively, the engine's lossless model
 // codec under symbolic execution (the zlib reader/writer stubs speak the same
 // model format, so frames built here are readable by the code under test).
